@@ -63,7 +63,7 @@ def main():
             mism.append(obj)
     # ---- the recipient named is the ORIGINAL address: route an address with the real rewrite(), bounce the routed form,
     #      and the notice must show the address as it was before the virtual-domain tag was prepended
-    from send_common import USERS, DOMS
+    from send_common import USERS, DOMS, TAGS, flipcase
     rt = []
     for ci in range(40 if ck.thorough else 12):
         c = gen_ctl(rng); h.write_ctl(c); assert h.cmd("ctl") == "ok"
@@ -81,6 +81,28 @@ def main():
                 fails.append(("bounce:full-address-vdom-prefix-kept" if full else "bounce:wrong-recipient-shown",
                               dict(kind="configuration", virtualdomains=c["vdoms"].decode("latin1"), locals=c["locals"].decode("latin1"), address=a.decode("latin1"),
                                    routed_as=routed.decode("latin1"), notice_head=t[:80].decode("latin1")), len(a)))
+    # ---- an address the routing left alone (remote, e.g. through an empty-tag exception under a tagged wildcard) is named verbatim,
+    #      also when its local part happens to begin with the wildcard's tag
+    for ci in range(60 if ck.thorough else 24):
+        tag = rng.choice(TAGS)
+        wild, exc, dom = rng.choice([(b".a.dom", b"b.a.dom", b"b.a.dom"), (b".a.dom", b".b.a.dom", b"c.b.a.dom"), (b"", b"x.org", b"x.org"), (b"", b".w.dom", b"sub.w.dom"),
+                                     (b".dom", b"a.dom", b"a.dom"), (b".a.dom", b"b.a.dom", b"B.A.dom")])
+        lines = [flipcase(rng, wild) + b":" + tag, flipcase(rng, exc) + b":"]
+        if rng.random() < 0.5: lines.append(b"hack.dom:t2")
+        rng.shuffle(lines)
+        c = dict(env=b"def.host", locals=b"local.dom\n", pct=b"", vdoms=b"\n".join(lines) + b"\n")
+        h.write_ctl(c); assert h.cmd("ctl") == "ok"
+        for a in [tag + b"-" + rng.choice(USERS) + b"@" + dom, tag + b"-@" + dom, rng.choice(USERS) + b"@" + dom, tag + b"@" + dom]:
+            rw = h.cmd("rw " + vlib.hx(a))
+            ck.evaluated(); ck.count("bounce_names_unrouted"); ck.nontrivial(("unrouted", c["vdoms"], a))
+            if rw != "R " + vlib.hx(a):
+                mism.append(dict(kind="configuration", virtualdomains=c["vdoms"].decode("latin1"), address=a.decode("latin1"), rewrite=rw, expected="remote, unchanged")); continue
+            t = vlib.unhx(h.cmd("bounce %s %s" % (vlib.hx(a), vlib.hx(b"failed"))))
+            if not t.startswith(b"<" + a + b">:\n"):
+                fails.append(("bounce:wrong-recipient-shown", dict(kind="configuration", virtualdomains=c["vdoms"].decode("latin1"), locals="local.dom\n", address=a.decode("latin1"),
+                                                                     routed_as=a.decode("latin1"), notice_head=t[:80].decode("latin1")), len(a)))
+            sv, _, _ = vlib.run_lines(drv, ["svp %s %s" % (vlib.hx(c["vdoms"]), vlib.hx(a))])
+            if vlib.unhx(sv[0]) != a: mism.append(dict(kind="configuration", virtualdomains=c["vdoms"].decode("latin1"), address=a.decode("latin1"), model_strip=sv[0]))
     # n recipients -> n paragraphs
     for k in range(0, len(cases) - 5, 5):
         grp = cases[k:k + 5]
@@ -89,6 +111,29 @@ def main():
         ck.evaluated(); ck.count("bounce_concat")
         if int(n[0]) != len([x for x in grp if x[3] != "-"]):
             fails.append(("bounce:paragraph-forged", dict(kind="input", fn="addbounce", items=[(x[1].decode("latin1"), x[2].decode("latin1")) for x in grp], paragraphs=n[0]), 999))
+    # ---- the bounce markers survive forwarding: a local forward (real qmail-local) re-injects with the owner address as the
+    #      sender only for ordinary messages; a bounce ("") and a double bounce ("#@[]") keep their sender, which is what lets
+    #      qmail-send recognise and discard a failing double bounce further down the chain
+    from C13 import Home
+    H = Home(rb)
+    for owner in (None, ".qmail-pm-owner", ".qmail-pm-owner-default", ".qmail-default"):
+        for snd in [b"", b"#@[]", b"s@x.example", b"#@[]x", b"#", b"#@[]-@[]"]:
+            files = {".qmail-pm": ("file", 0o600, b"&admin@offsite.example\n")}
+            if owner: files[owner] = ("file", 0o600, b"&boss@offsite.example\n")
+            if owner == ".qmail-pm-owner-default": files[".qmail-pm-owner"] = ("file", 0o600, b"&boss@offsite.example\n")
+            H.reset(files)
+            rc, out, err = H.run(["alias", H.home, "pm", "-", "pm", "host.example", snd.decode(), ""], b"Subject: failure notice\n\nHi.\n")
+            envf = open(H.qqout + ".env", "rb").read() if os.path.exists(H.qqout + ".env") else None
+            ck.evaluated(); ck.count("forwarded_bounce_sender"); ck.nontrivial(("fw", owner, snd))
+            has_owner = owner in (".qmail-pm-owner", ".qmail-pm-owner-default")      # only the exact owner file counts, never a default
+            if snd in (b"", b"#@[]") or not has_owner: exp_s = snd
+            elif owner == ".qmail-pm-owner-default": exp_s = b"pm-owner-@host.example-@[]"
+            else: exp_s = b"pm-owner@host.example"
+            exp_env = b"F" + exp_s + b"\0Tadmin@offsite.example\0\0"
+            if rc != 0 or envf != exp_env:
+                key = "bounce:marker-sender-lost-in-forward" if snd in (b"", b"#@[]") else "bounce:forward-envelope"
+                fails.append((key, dict(kind="configuration", fn="qmail-local forward", qmail_files=sorted(files), sender=snd.decode(), exit=rc, stderr=err.decode("latin1")[:200],
+                                        observed_envelope=None if envf is None else envf.decode("latin1"), expected_envelope=exp_env.decode("latin1")), len(snd)))
     # ---- who gets the notice
     senders = [b"joe@a.dom", b"", b"#@[]", b"owner-@host-@[]", b"list-owner-@lists.dom-@[]", b"x-@[]", b"-@[]", b"#@[]-@[]", b"a b@c", b"\"q\"@d", b"J@A.DOM", b"-@[]-@[]", b"@[]", b"#@[]x"]
     for _ in range(60 if ck.thorough else 20):
